@@ -41,7 +41,7 @@ ALL_OPS = ["Set", "Reset", "Neg", "Abs", "Sqrt", "Sin", "Sinh", "Cos", "Cosh", "
            "ConvertConstScalar", "ConvertScalar", "ConvertMagicScalar",
            "NewScalar", "NewConstScalar", "NewMagicScalar", "NullScalar", "NullConstScalar", "NullMagicScalar",
            "pkg.LogAdd", "pkg.LogSub", "pkg.LogErfc"]
-MUST_COUNT = ["exact_ok", "term_float_ok", "term_int_ok", "cross_ok", "panic_allowed_taken", "implementation_defined",
+MUST_COUNT = ["exact_ok", "agree_ok", "term_float_ok", "term_int_ok", "cross_ok", "panic_allowed_taken", "implementation_defined",
               "concrete_calls"]
 TRACE_NAME = "scalartypes_trace.ndjson"
 
